@@ -202,6 +202,13 @@ func eq(a, b term) string {
 			return not(b.s)
 		}
 	}
+	// canonical argument order (literals last, otherwise lexicographic) so that the same equation always has the
+	// same text: the syntactic branch pruning compares strings
+	_, _, la := litVal(a.s)
+	_, _, lb := litVal(b.s)
+	if (la && !lb) || (la == lb && a.s > b.s) {
+		a, b = b, a
+	}
 	return "(= " + a.s + " " + b.s + ")"
 }
 
